@@ -94,6 +94,7 @@ func runC06(c *kit.Ctx) {
 	// ---- R2 ---------------------------------------------------------------
 	c.StartRule("R2", "whole rows only, unless partial results were asked for", 3)
 	noFetchedRowIsSkipped(c)
+	endOfScanRowHasCells(c)
 	{
 		eof := p.SSA.ImportedPackage("io")
 		var eofG *ssa.Global
